@@ -286,12 +286,22 @@ def model_isotherm_units(run, meta, rng, thorough, batch, fac):
 
 
 # ------------------------------------------------------------------ 5. point isotherms
-def make_point(P, N, **units):
+def make_point(P, N, layout="ads", **units):
+    """layout 'ads': the points are the (only) adsorption branch.  'des_desc' / 'des_asc': a two-branch isotherm whose DESORPTION
+    branch consists of the points, stored from the highest pressure downwards (the usual way) / in ascending order; the adsorption
+    branch holds different loadings at the same pressures plus a higher turning point, so that reading the wrong branch shows."""
     import pygaps
     kw = dict(pressure_mode="absolute", pressure_unit="bar", loading_basis="molar", loading_unit="mmol", material_basis="mass", material_unit="g")
     kw.update(units)
-    return pygaps.PointIsotherm(pressure=[float(x) for x in P], loading=[float(x) for x in N], material=dict(MAT), adsorbate="nitrogen",
-                                temperature=77.344, **kw)
+    P, N = [float(x) for x in P], [float(x) for x in N]
+    if layout == "ads":
+        return pygaps.PointIsotherm(pressure=P, loading=N, material=dict(MAT), adsorbate="nitrogen", temperature=77.344, **kw)
+    ads_p, ads_n = P + [2.0 * P[-1]], [0.37 * n for n in N] + [1.25 * N[-1]]
+    des = list(zip(P, N))
+    if layout == "des_desc":
+        des = des[::-1]
+    return pygaps.PointIsotherm(pressure=ads_p + [p for p, _ in des], loading=ads_n + [n for _, n in des],
+                                branch=[0] * len(ads_p) + [1] * len(des), material=dict(MAT), adsorbate="nitrogen", temperature=77.344, **kw)
 
 
 def qclass(i, nq):
@@ -309,58 +319,64 @@ def point_isotherms(run, scen, meta, rng, thorough, batch, fac):
     site = "PointIsotherm.spreading_pressure_at"
     for si, s in enumerate(scen):
         P, N = [frac(x) for x in s["P"]], [frac(x) for x in s["N"]]
-        nq = len(s["qs"])
-        shared = make_point(P, N)
-        # which unit arguments accompany this data set (all of them over the run)
-        foreign = FOREIGN if thorough else [FOREIGN[si % len(FOREIGN)]]
-        for i, qd in enumerate(s["qs"]):
-            q = float(frac(qd["q"]))
-            exp = sym_value(qd["rat"], qd["logs"])
-            cls = qclass(i, nq)
-            # a query below the range must see a freshly built object (range guard depends on caches: property C04)
-            variants = [("native", {}, 1.0)] + [(f"{f[0]}:{f[1]}", dict(pressure_mode=f[0], pressure_unit=dec(f[1])), fac[(("absolute", "bar"), f)]) for f in foreign]
-            if i % 3 == 0:
-                variants.append(("loading_unit:mol", dict(loading_unit="mol"), None))
-            for vname, kw, k in variants:
-                iso = make_point(P, N) if (cls == "below_range" or vname != "native") else shared
-                scale = 1.0
-                qq = q
-                if k is None:
-                    scale = lfac
-                else:
-                    qq = q * k
-                    if cls in ("first_point", "data_point", "edge") and kw:
-                        # "at a data point / at the edge of the range" in the foreign unit: the data point as the library reports it
-                        j = (i - 1) // 2
-                        qlib = float(iso.pressure(**kw)[j])
-                        if _relerr(qlib, qq) > 1e-9:
-                            raise MachineryError(f"stored pressure {q} bar reported as {qlib} in {kw}, unit specification says {qq}")
-                        qq = qlib
-                run.count(("pt", json.dumps([s["P"], s["N"]]), i, vname), nontrivial=len(qd["logs"]) > 0)
-                ctx = {"query": cls, "units": "native" if vname == "native" else ("loading_unit" if k is None else kw["pressure_mode"])}
-                detail = {"pressure": [float(x) for x in P], "loading": [float(x) for x in N], "query": qq, "kwargs": kw,
-                          "expected": exp * scale, "symbolic": {"rat": qd["rat"], "logs": qd["logs"]}}
-                o = sp_call(iso.spreading_pressure_at, qq, **kw)
-                if o[0] != "val":
-                    run.violation({"site": site, "clause": "value", **ctx, "observed": _noval(o)}, {**detail, "message": o[-1]})
-                    continue
-                v = o[1]
-                if _relerr(v, exp * scale) > TOL_CLOSED:
-                    run.violation({"site": site, "clause": "integral", **ctx, "observed": "differs from the integral of the interpolant"},
-                                  {**detail, "returned": v})
-                if vname == "native":
-                    npt += 1
-                    batch.add({"k": "pt", "P": s["P"], "N": s["N"], "qp": qd["q"],
-                               "lns": [dec_enc(math.log(float(frac(t["arg"])))) for t in qd["logs"]], "pi": dec_enc(v)},
-                              lambda ans, ctx=ctx, detail=detail, v=v: None if ans["ok"] else run.violation(
-                                  {"site": site, "clause": "integral", **ctx, "observed": "differs from the integral of the interpolant"},
-                                  {**detail, "returned": v, "spec": "Spreading!PtStep", "expected_decimal": dec_dec(ans["expected"])}))
-                    # loading_at of the same fresh object is the integrand (derivative clause uses it in the spec)
-                    if cls != "below_range":
-                        ol = sp_call(iso.loading_at, q)
-                        if ol[0] == "val" and _relerr(ol[1], float(frac(qd["n"]))) > TOL_CLOSED:
-                            run.violation({"site": "PointIsotherm.loading_at", "clause": "interpolant", **ctx, "observed": "differs from linear interpolation"},
-                                          {**detail, "returned": ol[1], "expected_loading": float(frac(qd["n"]))})
+        # the same points as the only adsorption branch, and as the DESORPTION branch of a two-branch isotherm stored
+        # descending (the usual way) / ascending, queried with branch='des'; PtStep sorts the stored points by pressure
+        layouts = ("ads", "des_desc", "des_asc") if thorough else ("ads", ("des_desc", "des_asc")[si % 2])
+        for layout in layouts:
+            bkw = {} if layout == "ads" else {"branch": "des"}
+            stored_P, stored_N = (s["P"][::-1], s["N"][::-1]) if layout == "des_desc" else (s["P"], s["N"])
+            nq = len(s["qs"])
+            shared = make_point(P, N, layout)
+            # which unit arguments accompany this data set (all of them over the run)
+            foreign = FOREIGN if thorough else [FOREIGN[si % len(FOREIGN)]]
+            for i, qd in enumerate(s["qs"]):
+                q = float(frac(qd["q"]))
+                exp = sym_value(qd["rat"], qd["logs"])
+                cls = qclass(i, nq)
+                # a query below the range must see a freshly built object (range guard depends on caches: property C04)
+                variants = [("native", {}, 1.0)] + [(f"{f[0]}:{f[1]}", dict(pressure_mode=f[0], pressure_unit=dec(f[1])), fac[(("absolute", "bar"), f)]) for f in foreign]
+                if i % 3 == 0:
+                    variants.append(("loading_unit:mol", dict(loading_unit="mol"), None))
+                for vname, kw, k in variants:
+                    iso = make_point(P, N, layout) if (cls == "below_range" or vname != "native") else shared
+                    scale = 1.0
+                    qq = q
+                    if k is None:
+                        scale = lfac
+                    else:
+                        qq = q * k
+                        if cls in ("first_point", "data_point", "edge") and kw:
+                            # "at a data point / at the edge of the range" in the foreign unit: the data point as the library reports it
+                            j = (i - 1) // 2
+                            qlib = float(sorted(iso.pressure(**bkw, **kw))[j])
+                            if _relerr(qlib, qq) > 1e-9:
+                                raise MachineryError(f"stored pressure {q} bar reported as {qlib} in {kw}, unit specification says {qq}")
+                            qq = qlib
+                    run.count(("pt", layout, json.dumps([s["P"], s["N"]]), i, vname), nontrivial=len(qd["logs"]) > 0)
+                    ctx = {"branch": layout, "query": cls, "units": "native" if vname == "native" else ("loading_unit" if k is None else kw["pressure_mode"])}
+                    detail = {"pressure": [float(x) for x in P], "loading": [float(x) for x in N], "query": qq, "kwargs": {**bkw, **kw}, "layout": layout,
+                              "expected": exp * scale, "symbolic": {"rat": qd["rat"], "logs": qd["logs"]}}
+                    o = sp_call(iso.spreading_pressure_at, qq, **bkw, **kw)
+                    if o[0] != "val":
+                        run.violation({"site": site, "clause": "value", **ctx, "observed": _noval(o)}, {**detail, "message": o[-1]})
+                        continue
+                    v = o[1]
+                    if _relerr(v, exp * scale) > TOL_CLOSED:
+                        run.violation({"site": site, "clause": "integral", **ctx, "observed": "differs from the integral of the interpolant"},
+                                      {**detail, "returned": v})
+                    if vname == "native":
+                        npt += 1
+                        batch.add({"k": "pt", "P": stored_P, "N": stored_N, "qp": qd["q"],
+                                   "lns": [dec_enc(math.log(float(frac(t["arg"])))) for t in qd["logs"]], "pi": dec_enc(v)},
+                                  lambda ans, ctx=ctx, detail=detail, v=v: None if ans["ok"] else run.violation(
+                                      {"site": site, "clause": "integral", **ctx, "observed": "differs from the integral of the interpolant"},
+                                      {**detail, "returned": v, "spec": "Spreading!PtStep", "expected_decimal": dec_dec(ans["expected"])}))
+                        # loading_at of the same fresh object is the integrand (derivative clause uses it in the spec)
+                        if cls != "below_range":
+                            ol = sp_call(iso.loading_at, q, **bkw)
+                            if ol[0] == "val" and _relerr(ol[1], float(frac(qd["n"]))) > TOL_CLOSED:
+                                run.violation({"site": "PointIsotherm.loading_at", "clause": "interpolant", **ctx, "observed": "differs from linear interpolation"},
+                                              {**detail, "returned": ol[1], "expected_loading": float(frac(qd["n"]))})
     run.set(point_datasets=len(scen), point_queries=npt)
 
     # geometric contract on measured-like data (loading_at as integrand): additivity, monotone, zero, derivative
@@ -483,7 +499,7 @@ def main(tier, seed):
                  "specification) judged position by position against the scalar call, and ndarray/list/Series through ModelIsotherm.spreading_pressure_at (Models!ElemStep); "
                  "(c) ModelIsotherm.spreading_pressure_at for 4 models x 2 native modes x 6 pressure representations; (d) "
                  + ("all 475" if thorough else "90 seeded") + " enumerated point-isotherm data sets x every query class (below range, first point, inside, data point, edge) "
-                 "x native / foreign pressure unit or mode / loading unit. non-trivial = positive pressure (a) / query beyond the Henry segment (d); "
+                 "x native / foreign pressure unit or mode / loading unit, each data set as the only adsorption branch and as the desorption branch (branch='des') of a two-branch isotherm stored descending / ascending. non-trivial = positive pressure (a) / query beyond the Henry segment (d); "
                  "distinct = distinct (part, model or data set, parameters, pressure or query, unit variant)")
     run.assume("the integrand is the library's own loading()/loading_at() of the same object (that it is the model equation / the linear interpolant is checked by C10 and here by PiPoint's n)")
     run.assume("Simpson sums in DecFloat: 2e-7 relative error per operation; in-spec tolerances 2e-5 (windows), 5e-3 (central-difference derivative), 5e-2 (zero limit at p_top/4096)")
@@ -504,7 +520,7 @@ def replay(path):
         print(f"{d['model']}.spreading_pressure({d['argument']}) with {d['parameters']} -> {o}; expected {d['expected']}")
         return 0 if o[0] == "val" and abs(o[1] - d["expected"]) <= 1e-7 * max(1e-300, abs(d["expected"])) + ZERO_ABS else 1
     if "pressure" in d and "query" in d:
-        iso = make_point(d["pressure"], d["loading"])
+        iso = make_point(d["pressure"], d["loading"], d.get("layout", "ads"))
         o = sp_call(iso.spreading_pressure_at, d["query"], **(d.get("kwargs") or {}))
         print(f"PointIsotherm({d['pressure']}, {d['loading']}).spreading_pressure_at({d['query']}, {d.get('kwargs')}) -> {o}; expected {d.get('expected')}")
         return 0 if o[0] == "val" and "expected" in d and _relerr(o[1], d["expected"]) <= 1e-7 else 1
